@@ -31,7 +31,10 @@ var verbose = flag.Bool("v", false, "verbose")
 func main() {
 	dir := flag.String("dir", ".", "module root of the scratch copy")
 	pkgs := flag.String("pkgs", "", "comma separated package directories (relative to the module root)")
+	seamList := flag.String("seams", "", "comma separated dir:Func or dir:Type.Method whose body gets a replaceable prologue (ZsimSeam_*)")
+	argList := flag.String("argseams", "", "comma separated dir:Func or dir:Type.Method whose arguments can be substituted (ZsimArgs_*)")
 	flag.Parse()
+	seams, argSeams := parseSeams(*seamList), parseSeams(*argList)
 	var pats []string
 	for _, p := range strings.Split(*pkgs, ",") {
 		p = strings.TrimSpace(p)
@@ -75,6 +78,8 @@ func main() {
 				continue
 			}
 			in := &instr{fset: fset, info: p.TypesInfo, file: f, fname: filepath.Base(name), pkg: p.Types}
+			rel, _ := filepath.Rel(*dir, filepath.Dir(name))
+			in.seams, in.argSeams = seams[rel], argSeams[rel]
 			if err := in.run(); err != nil {
 				fmt.Fprintf(os.Stderr, "instr: %s: %v\n", name, err)
 				os.Exit(2)
@@ -102,16 +107,109 @@ func main() {
 }
 
 type instr struct {
-	fset    *token.FileSet
-	info    *types.Info
-	pkg     *types.Package
-	file    *ast.File
-	fname   string
-	changed bool
-	useZsim bool
-	sites   int
-	ctr     int
-	keep    map[string]string // local package name -> member to reference so the import stays used
+	fset     *token.FileSet
+	info     *types.Info
+	pkg      *types.Package
+	file     *ast.File
+	fname    string
+	changed  bool
+	useZsim  bool
+	sites    int
+	ctr      int
+	keep     map[string]string // local package name -> member to reference so the import stays used
+	seams    map[string]bool   // Func or Type.Method -> give it a replaceable prologue
+	argSeams map[string]bool
+}
+
+func parseSeams(s string) map[string]map[string]bool {
+	out := map[string]map[string]bool{}
+	for _, e := range strings.Split(s, ",") {
+		e = strings.TrimSpace(e)
+		i := strings.LastIndex(e, ":")
+		if i < 0 {
+			continue
+		}
+		if out[e[:i]] == nil {
+			out[e[:i]] = map[string]bool{}
+		}
+		out[e[:i]][e[i+1:]] = true
+	}
+	return out
+}
+
+// seam gives a function a prologue through which a simulation hook (a package-level func variable, nil by
+// default, declared here) can replace the call (kind "Seam") or substitute its arguments (kind "Args").
+func (in *instr) seam(d *ast.FuncDecl, kind string) error {
+	name := d.Name.Name
+	var fields []*ast.Field
+	if d.Recv != nil && len(d.Recv.List) == 1 {
+		t := d.Recv.List[0].Type
+		if st, ok := t.(*ast.StarExpr); ok {
+			t = st.X
+		}
+		tn, ok := t.(*ast.Ident)
+		if !ok {
+			return fmt.Errorf("seam %s: unsupported receiver", name)
+		}
+		name = tn.Name + "_" + name
+		fields = append(fields, d.Recv.List[0])
+	}
+	fields = append(fields, d.Type.Params.List...)
+	var args, types []ast.Expr
+	for _, f := range fields {
+		if len(f.Names) == 0 {
+			return fmt.Errorf("seam %s: unnamed parameter", name)
+		}
+		for _, n := range f.Names {
+			if n.Name == "_" {
+				return fmt.Errorf("seam %s: blank parameter", name)
+			}
+			args = append(args, id(n.Name))
+			types = append(types, f.Type)
+		}
+	}
+	v := id("Zsim" + kind + "_" + name)
+	ft := &ast.FuncType{Params: &ast.FieldList{}}
+	for _, t := range types {
+		ft.Params.List = append(ft.Params.List, &ast.Field{Type: t})
+	}
+	call := &ast.CallExpr{Fun: v, Args: args}
+	var body []ast.Stmt
+	switch kind {
+	case "Seam":
+		ft.Results = d.Type.Results
+		if d.Type.Results != nil && len(d.Type.Results.List) > 0 {
+			body = []ast.Stmt{&ast.ReturnStmt{Results: []ast.Expr{call}}}
+		} else {
+			body = []ast.Stmt{&ast.ExprStmt{X: call}, &ast.ReturnStmt{}}
+		}
+	default:
+		ft.Results = &ast.FieldList{}
+		for _, t := range types {
+			ft.Results.List = append(ft.Results.List, &ast.Field{Type: t})
+		}
+		body = []ast.Stmt{assign(args, call)}
+	}
+	pro := &ast.IfStmt{Cond: &ast.BinaryExpr{X: v, Op: token.NEQ, Y: id("nil")}, Body: &ast.BlockStmt{List: body}}
+	d.Body.List = append([]ast.Stmt{pro}, d.Body.List...)
+	in.file.Decls = append(in.file.Decls, &ast.GenDecl{Tok: token.VAR, Specs: []ast.Spec{
+		&ast.ValueSpec{Names: []*ast.Ident{id(v.Name)}, Type: ft},
+	}})
+	in.changed = true
+	return nil
+}
+
+func seamKey(d *ast.FuncDecl) string {
+	if d.Recv != nil && len(d.Recv.List) == 1 {
+		t := d.Recv.List[0].Type
+		if st, ok := t.(*ast.StarExpr); ok {
+			t = st.X
+		}
+		if tn, ok := t.(*ast.Ident); ok {
+			return tn.Name + "." + d.Name.Name
+		}
+	}
+	return d.Name.Name
 }
 
 func (in *instr) site(n ast.Node) *ast.BasicLit {
@@ -189,6 +287,21 @@ func (in *instr) run() error {
 			}
 		case *ast.GenDecl:
 			in.fix(d)
+		}
+	}
+	for _, d := range append([]ast.Decl(nil), in.file.Decls...) {
+		if fd, ok := d.(*ast.FuncDecl); ok && fd.Body != nil {
+			k := seamKey(fd)
+			if in.seams[k] {
+				if err := in.seam(fd, "Seam"); err != nil {
+					return err
+				}
+			}
+			if in.argSeams[k] {
+				if err := in.seam(fd, "Args"); err != nil {
+					return err
+				}
+			}
 		}
 	}
 	if !in.changed {
